@@ -46,10 +46,10 @@ const (
 )
 
 var modes = []config.ReplayMode{config.ReplayModeSync, config.ReplayModePipeline, config.ReplayModeParallel}
-var filters = []string{"none", "prefix-whitelist", "prefix-blacklist", "whitelist+cmd-blacklist"}
+var filters = []string{"none", "prefix-whitelist", "prefix-blacklist", "whitelist+cmd-blacklist", "cmd-blacklist"}
 
 func genLoopCfg(r *rand.Rand, i int) loopCfg {
-	c := loopCfg{Mode: modes[i%3], Filter: filters[(i/3)%4]}
+	c := loopCfg{Mode: modes[i%3], Filter: filters[(i/3)%len(filters)]}
 	c.Window = []uint{1, 4, 100}[r.Intn(3)]
 	c.Snapshot = r.Intn(2) == 0
 	c.Restore = r.Intn(4) != 0
@@ -57,15 +57,17 @@ func genLoopCfg(r *rand.Rand, i int) loopCfg {
 	c.BufSize = []int{16, 128, 4096}[r.Intn(3)]
 	c.Conflict = r.Intn(3) != 0
 	c.LateReverse = r.Intn(5) == 0
+	c.Clients = 2 + r.Intn(2)
+	c.OpsPerClient = []int{8, 12, 18}[r.Intn(3)]
 	return c
 }
 
 func main() {
 	drive.Quiet()
 	run := harness.New("C13", "exploration",
-		"loop = PRNG(seed,i) → (replay mode by i mod 3, filter class by (i div 3) mod 4, window, snapshot phase yes/no with RESTORE or expanded replay, Redis version of the doubles (single-write "+
-			"transactions unwrapped from 7 on), reader buffer, replication-lag window with conflicting writes, reverse link started late from a snapshot of B) + client scripts of ≈60 id-carrying writes "+
-			"(plain / MULTI / marker look-alikes) issued concurrently over 4 connections; distinct = (mode, phases, filter class, rewrite kinds and no-op shrink shapes seen in the mirrored traffic, outcome)")
+		"loop = PRNG(seed,i) → (replay mode by i mod 3, filter class by (i div 3) mod 5, window, snapshot phase yes/no with RESTORE or expanded replay, Redis version of the doubles (single-write "+
+			"transactions unwrapped from 7 on), reader buffer, replication-lag window with conflicting writes, reverse link started late from a snapshot of B) + client scripts of ≈60–170 id-carrying writes "+
+			"(plain / MULTI / marker look-alikes in key, value and every other non-key argument, stand-alone, in transactions and in single-write transactions) issued concurrently over 4–6 connections; distinct = (mode, phases, filter class, rewrite kinds and no-op shrink shapes seen in the mirrored traffic, outcome)")
 	run.Watchdog(100 * time.Minute)
 	run.Assume("the double's propagation module emits what a Redis master would (fakeredis/role_propagate.go: SELECT, MULTI/EXEC wrapping per version, PXAT/PEXPIREAT/ABSTTL/XADD-id rewrites, no-op omission); lazy-expiry DELs are not modelled, TTLs are kept far in the future")
 	run.Assume("both sites standalone: one lane per link, links execute their stream in order; 'applied' = executed by a link connection (every connection that is not one of the harness' own named connections)")
@@ -73,8 +75,8 @@ func main() {
 	run.Assume("in bisync mode the tool replays every source database into database 0 of the target; the database a write lands in is not judged here")
 	run.MinDistinct(6)
 
-	n := run.N(36, 720)
-	harness.Parallel(n, 6, func(i int) {
+	n := run.N(720, 7200)
+	harness.Parallel(n, 8, func(i int) {
 		key := fmt.Sprintf("loop-%d", i)
 		if !run.WantCase(key) {
 			return
@@ -184,14 +186,14 @@ func oneLoop(run *harness.Run, key string, r *rand.Rand, c loopCfg) {
 		run.Inconclusive("%s: "+format, append([]any{key}, a...)...)
 	}
 	for _, s := range sites {
-		for k := 0; k < 2; k++ {
+		for k := 0; k < c.Clients; k++ {
 			c0, err := dial(s.srv.Addr(), fmt.Sprintf("%s%d", s.name, k))
 			if err != nil {
 				fail("dial %s: %v", s.name, err)
 				return
 			}
 			defer c0.close()
-			ops := genScript(r, gens[s.name], c, 8+r.Intn(3))
+			ops := genScript(r, gens[s.name], c, c.OpsPerClient+r.Intn(4))
 			clients = append(clients, &cl{s: s, c: c0, w1: ops[:len(ops)/2], w2: ops[len(ops)/2:], r: rand.New(rand.NewSource(r.Int63()))})
 		}
 	}
